@@ -383,6 +383,16 @@ def apply_history(args):
             pw_['pins'][0] = [[0.7 * base, -0.9 * base, 2.6 * base]
                               for _ in pw_['pins'][0]]
             ptrue = None
+        else:
+            # grouping by total power: one grouped assembly with a strongly
+            # peaked profile and a somewhat lower total than it would have
+            # flat (its place in the order is that of its total)
+            gp = [i for i in range(n) if names[i] in ('ta', 'tb')]
+            tgt = gp[spec['seed'] % len(gp)]
+            pw_ = c['power'][str(tgt + 1)]
+            base = max(abs(co[0]) for co in pw_['pins'][0])
+            pw_['pins'][0] = [[0.35 * base, 0.0, 6.0 * base]
+                              for _ in pw_['pins'][0]]
         t_out = spec.get('t_out', 773.15)
         # the grouping parameter of every assembly from its own profile:
         # total power, or the peak over the height of the pin-averaged
